@@ -56,6 +56,12 @@ FIXED = [
  ("C27","overlapping-regexps-by-map-order","overlapping interface regexps resolve","with matchers {/eth.*/, /.*0/:promisc} the configuration applied to eth0 depended on Go map iteration order (41 of 200 runs promisc)"),
  ("C27","selected-interface-not-captured:reconfigured","the error routine of a replaced capture","after Update(eth0 default -> eth0 promisc) returned, no capture ran on eth0: the old capture's logErrors routine looked the capture up by name and closed the newly registered one (300 of 300 runs at GOMAXPROCS=1)"),
  ("C11","never-ends:work-queue-filled-before-workers-start","queries over more day directories","a query over 2049 day directories with one worker (runtime.NumCPU()==1) never returned: CreateWorkerJobs blocked on the 65th send into a channel of capacity workers*64 that nobody reads yet"),
+ ("C06","col.*:delete:*","a column file that failed to open","deleting one column file of a day made queries fail ('worker gave up') and the interface listing fail with 'failed to close ... invalid argument': GPFile.open left a nil *os.File inside the non-nil g.file interface"),
+ ("C06","blockmeta.*:bitflip:crash:panic:gpfile.(*GPFile).ReadBlockAtIndex","implausible block sizes","a .blockmeta block length with bit 31 set (or Len=0 with RawLen!=0 on an lz4 block) killed the process: 2*RawLen wrapped in uint32 and the re-slice panicked in a worker goroutine / the decompressor indexed an empty slice"),
+ ("C06","blockmeta.len:bitflip:crash:panic:lz4.(*Encoder).Decompress","cgo lz4 Decompress rejects","cgo lz4 Decompress indexed in[0] of an empty input"),
+ ("C06","dirname:suffix-nonalnum:*","a metadata suffix with characters","a day directory whose name suffix contains a byte above 'z' ('~', '{', 0xff) made every query and listing over the interface panic in bitpack.DecodeUint64FromString (index out of range [126] with length 123)"),
+ ("C06","dirname:prefix-*:*","entries that are not part of the database layout","a foreign directory ('lost+found') or a day directory with a non-numeric / unaligned timestamp next to the day directories made every query and listing over that interface fail ('failed to parse timestamp / suffix from directory')"),
+ ("C06","blockmeta*:query-fails:*","a day directory with unreadable or implausible metadata","an undecodable .blockmeta in one day failed the whole query / listing ('failed to open first GPDir', 'internal error during query processing'), a zero-block .blockmeta panicked in GPDir.TimeRange, and a flipped bit in one day's first timestamp made queries return zero rows for all other days with nothing counted as corrupted"),
 ]
 
 KNOWN = [
